@@ -529,6 +529,10 @@ func (p *versionParser) version() (*Version, error) {
 		if r != eof {
 			p.isPrerelease = true
 			r = p.metadata(&p.pre, false, "pre-release")
+			if len(p.pre) == 0 {
+				// metadata has recorded the error.
+				return nil, p.lex.err
+			}
 			l := p.pre[len(p.pre)-1]
 			if l[len(l)-1] != '*' {
 				p.lex.setErr("missing asterisk at end of prerelease")
